@@ -167,6 +167,17 @@ static GCase gen_case() {
       for (auto &st : g.stops) st.color |= 0xff000000;
     c.over = coin(80);
     if (coin(50)) g.has_transform = 0;
+    if (coin(40)) {
+      // everything on the pixel grid and no transform: a column of pixel centres lies exactly on the tangent line, where
+      // the degenerate equation has no root at all (b == 0 as well) — those pixels are transparent (seeded C13r)
+      g.has_transform = 0;
+      int64_t ccx = R(-6, 30), r1px = coin(40) ? 0 : R(1, 6), dpx = R(1, 12);
+      cx = ccx * 65536 + 32768;
+      cy = R(-3, 8) * 65536 + 32768;
+      g.geom = {cx, cy, cx + sgn * dpx * 65536, cy, r1px * 65536, (r1px + dpx) * 65536};
+      c.w = (int)R(4, 40);
+      c.sx = (int)(ccx - sgn * r1px - R(0, c.w - 1));
+    }
     break;
   }
   default: break;
@@ -286,6 +297,17 @@ static real param_at(const SImg &g, real px, real py, bool *valid) {
   return 0;
 }
 
+// untransformed radial gradient, pixel centre exactly on the tangent line of internally tangent circles: the equation
+// degenerates to 0 = c, which no t satisfies (every quantity here is an exact multiple of 2^-32, so "exactly" is decidable
+// and the library decides it on the same integers)
+static bool on_tangent_line_without_root(const SImg &g, real px, real py) {
+  auto G = [&](int i) { return (real)g.geom[(size_t)i] / 65536.0L; };
+  real cdx = G(2) - G(0), cdy = G(3) - G(1), dr = G(5) - G(4), r1 = G(4);
+  real pdx = px - G(0), pdy = py - G(1);
+  real a = cdx * cdx + cdy * cdy - dr * dr, b = pdx * cdx + pdy * cdy + r1 * dr, c = pdx * pdx + pdy * pdy - r1 * r1;
+  return a == 0 && b == 0 && c != 0;
+}
+
 static Verdict run_case(const GCase &c) {
   Verdict v;
   const SImg &g = c.g;
@@ -389,7 +411,12 @@ static Verdict run_case(const GCase &c) {
       real tlo = 1e300L, thi = -1e300L;
       bool all_valid = true, none_valid = true, degenerate = false;
       g_ill = false;
-      for (int k = 0; k < 5; k++) {
+      bool exact_no_root = g.kind == 3 && !g.has_transform && on_tangent_line_without_root(g, c.sx + x + 0.5L, c.sy + y + 0.5L);
+      if (exact_no_root) {
+        all_valid = false;
+        v.label("pixel_centre_exactly_on_the_tangent_line");
+      }
+      for (int k = 0; k < 5 && !exact_no_root; k++) {
         real vx = c.sx + x + 0.5L, vy = c.sy + y + 0.5L;
         real X = m[0] * vx + m[1] * vy + m[2], Y = m[3] * vx + m[4] * vy + m[5], W = m[6] * vx + m[7] * vy + m[8];
         // the library rounds X, Y and W to 16.16 before dividing: the position is known to about
